@@ -1,15 +1,18 @@
 (** Executable entry point of the C16 model for the correspondence check.
-    case = (0 init readers steps sched kcs flavours)
+    case = (0 init readers steps sched kcs hows kinds)
       init    : value of the Root store (see harness/stores: Root/Mid/Sub/Item/Leaf)
       readers : list of accessor chains; chain = list of (kind arg): 0 field, 1 unwrap,
-                2 at_unkeyed, 3 keyed item, 4 hand on type-erased: (4 0) ArcField, (4 1) Field
+                2 at_unkeyed, 3 keyed item, 4 hand on type-erased: (4 0) ArcField, (4 1) Field, (4 2) ArcStore root, 5 deref_field
       steps   : list of (op chain value): 0 set, 1 patch, 2 report path(),
                 3 (chain-to-keyed-field keys): which live keys share a segment; which of
                 [keys] kept the segment of the previous report,
                 4 (reader): re-run that reader (its private trigger is notified)
       sched   : executor choices ([] = FIFO)
-      flavours: per reader, 1 = iterate over the collection the chain addresses
-                (iter_unkeyed / keyed into_iter) reading every item, 0 / absent = read the field
+      hows    : per reader, the read entry point: 1 = iterate over the collection the chain
+                addresses (iter_unkeyed / keyed into_iter); 0 try_read, 2 try_get, 3 try_with,
+                4 track + untracked read, 5 track_field + reader, 6 / 7 OptionStoreExt::map / invert
+      kinds   : per reader, the subscriber: 0 Effect, 1 ImmediateEffect, 2 RenderEffect,
+                3 Memo read by an Effect, 4 Effect::new_isomorphic
       kcs     : per step, the two visiting orders of FieldKeys::update (hash order in the
                 implementation; the observation must not depend on them) *)
 From Coq Require Import List ZArith.
@@ -18,7 +21,7 @@ Import ListNotations.
 
 Definition ShLeaf := SStruct [SInt; SInt].
 Definition ShItem := SStruct [SInt; SInt; ShLeaf].
-Definition ShSub := SStruct [SInt; ShLeaf; SVec SInt].
+Definition ShSub := SStruct [SInt; ShLeaf; SVec SInt; SBox ShLeaf].
 Definition ShMid := SStruct [SInt; ShLeaf; SOpt ShLeaf; SKeyed ShItem].
 Definition ShRoot := SStruct [SInt; ShMid; SOpt ShSub; SVec ShSub; SKeyed ShItem].
 
@@ -28,7 +31,8 @@ Definition as_step (s : sexp) : step :=
   | 1%Z => Unw
   | 2%Z => Idx (as_nat (nth_s 1 s))
   | 3%Z => Key (as_Z (nth_s 1 s))
-  | _ => Era (as_bool (nth_s 1 s))
+  | 4%Z => Era (as_nat (nth_s 1 s))
+  | _ => Drf
   end.
 Definition as_chain (s : sexp) : list step := map as_step (as_list s).
 
@@ -50,10 +54,12 @@ Definition abs_nat (s : sexp) : nat := Z.abs_nat (as_Z s).
 Definition run_C16 (c : sexp) : sexp :=
   match as_Z (nth_s 0 c) with
   | 0%Z =>
-      let flavours := as_list (nth_s 6 c) in
+      let hows := as_list (nth_s 6 c) in
+      let kinds := as_list (nth_s 7 c) in
       let chains := map as_chain (as_list (nth_s 2 c)) in
       Lst (simulate ShRoot (nth_s 1 c)
-             (map (fun ic => (as_bool (nth (fst ic) flavours (Num 0%Z)), snd ic))
+             (map (fun ic => mkReader (as_nat (nth (fst ic) kinds (Num 0%Z)))
+                                      (as_nat (nth (fst ic) hows (Num 0%Z))) (snd ic))
                   (combine (seq 0 (length chains)) chains))
              (map as_hstep (as_list (nth_s 3 c)))
              (map abs_nat (as_list (nth_s 4 c)))
